@@ -166,6 +166,19 @@ def run(rep, tier, seed, b):
         if rng.random() < 0.5:        # multi-fragment, nop-padded, truncated index symbols
             x2 = x + '.' + gens.live_selfies(rng, 15) if rng.random() < 0.6 else x.replace(']', '][nop]', rng.randint(0, 3))
         items.append(('dec', t, x2, rng.random() < 0.1))
+    # many rings: ring labels >= 10 are written %NN, and tokens written after them must still be located exactly
+    units = ['[C][C][C][Ring1][Ring1]', '[C][C][C][C][Ring1][Ring2]', '[N][C][C][Ring1][Ring1]', '[C][C][=C][Ring1][Ring1]', '[C][C][C][=Ring1][Ring1]',
+             '[C][Branch1][Ring2][C][C][Ring1][Ring1][C]', '[C][C][C][C][C][Ring1][Branch1]']
+    for _ in range(400 if tier == 'quick' else 8000):
+        k = rng.randint(8, 16)
+        x = ''.join(rng.choice(units) for _ in range(k))
+        if rng.random() < 0.4:
+            cut = rng.randint(1, k - 1)
+            parts = x.split(']')
+            j = rng.randint(1, len(parts) - 2)
+            x = ']'.join(parts[:j]) + '].' + ']'.join(parts[j:])
+        x += rng.choice(['[=O]', '[C][=O]', '[#N]', '[C][Branch1][C][F][=N]', '[/C][=C][/F]', '[13CH2][O-1]']) + (gens.live_selfies(rng, 8) if rng.random() < 0.5 else '')
+        items.append(('dec', rng.choice(tabs), x, False))
     etabs = E.tables_for(rng, 4)
     for x in E.gen_smiles_cases(rng, n // 3, mutate=0.2, maxlen=90):
         items.append(('enc', rng.choice(etabs), x, rng.random() < 0.6))
@@ -180,7 +193,7 @@ def run(rep, tier, seed, b):
             rep.nontriv(it[0] + it[2])
     for it in items[:2] + items[-2:]:
         rep.sample({'direction': it[0], 'input': it[2]})
-    rep.rule = ('decoder: live strings x tables, half of them multi-fragment / [nop]-padded / with truncated index symbols, 10%% with compatible=True; encoder: re-spelt and mutated dataset SMILES '
+    rep.rule = ('decoder: live strings x tables, half of them multi-fragment / [nop]-padded / with truncated index symbols, 10%% with compatible=True, plus strings with 8-16 ring bonds (labels %%10 and above) followed by further atoms; encoder: re-spelt and mutated dataset SMILES '
                 'x tables x strict; for each: string with and without attribution, exact attribution list vs the model, truthfulness judged with independent tokenisations. '
                 'non-trivial = distinct accepted input longer than 15 characters')
 
